@@ -3,6 +3,7 @@ package expr
 import (
 	"errors"
 	"fmt"
+	"math"
 
 	"github.com/shopspring/decimal"
 
@@ -153,6 +154,9 @@ func EvaluateFloorDiv(lhs, rhs system.Any) (system.Any, error) {
 	switch left := lhs.(type) {
 	case system.Integer:
 		if right, ok := rhs.(system.Integer); ok {
+			if left == math.MinInt32 && right == -1 {
+				return nil, system.ErrIntOverflow
+			}
 			return left.FloorDiv(right), nil
 		}
 		if _, ok := rhs.(system.Quantity); ok {
